@@ -42,3 +42,16 @@ _put(["multivariate"], ["rescale"], "multi_rescale")
 _put(["multivariate"], ["to_basis"], "multi_to_basis")
 _put(["multivariate"], ["to_grid"], "multi_to_grid")
 _put(["multivariate"], ["inner_product", "norm", "noise_variance", "to_long", "count", "index"], "fresh")
+
+# indexing: int / slice give a view of the values (coefficients), an index array a copy
+for _k in DENSE + ["basis"]:
+    _put([_k], ["__getitem__"], "getitem_view", 0)
+    _put([_k], ["__getitem__"], "getitem_view", 1)
+_put(DENSE, ["__getitem__"], "share_argvals", 2)
+_put(["basis"], ["__getitem__"], "basis_share", 2)
+_put(["multivariate"], ["__getitem__"], "multi_getitem_view", 0)
+_put(["multivariate"], ["__getitem__"], "multi_getitem_view", 1)
+_put(["multivariate"], ["__getitem__"], "multi_share_argvals", 2)
+_put(["irregular"], ["__getitem__"], "getitem_irregular:1", 0)
+_put(["irregular"], ["__getitem__"], "getitem_irregular:1.2", 1)
+_put(["irregular"], ["__getitem__"], "getitem_irregular:0.2", 2)
